@@ -1,6 +1,6 @@
 //go:build verif
 
-// C11 part "mixed" — key generation answers depend on the request alone (DESIGN §10.7).
+// C11 part "mixed" — key generation answers depend on the request alone (DESIGN §10.5c-f).
 // The enumeration of c11_test.go sends every request with all four fields, one at a time. Here seeded
 // SEQUENCES of requests are sent in which fields are omitted (no "type": no permission requested; no "ttl":
 // no expiry), refused requests (invalid / over-deep channels, expired and foreign parents) are mixed with
